@@ -3,6 +3,7 @@ every file-system call the repository directory is copied; every copy is what a 
 re-opened and inspected."""
 import hashlib, os, shutil, tempfile, zlib
 import sched
+import impl_C04 as P
 from dulwich.repo import Repo
 from dulwich.objects import Blob, Commit, Tree
 from dulwich.pack import write_pack_objects
@@ -33,8 +34,15 @@ NUM = {o.id: i for i, o in enumerate(OBJS)}
 REFS = [MAIN, SIDE]
 
 
-def base_repo(d, packed_objs=False, refs_layout="loose", nonbare=False, side=True, extra_loose=()):
+def base_repo(d, packed_objs=False, refs_layout="loose", nonbare=False, side=True, extra_loose=(), fsync=False):
     r = (Repo.init if nonbare else Repo.init_bare)(os.path.join(d, "r"), mkdir=True)
+    if fsync:
+        c = r.get_config()
+        c.set((b"core",), b"fsyncObjectFiles", True)
+        c.write_to_path()
+        path0 = r.path
+        r.close()
+        r = Repo(path0)
     if packed_objs:
         r.object_store.add_objects([(B0, None), (T0, None), (C0, None)])
         r.object_store.pack_loose_objects()
@@ -168,6 +176,23 @@ def scenarios():
         commit_()
         r.refs.set_if_equals(MAIN, C0.id, C1.id)
 
+    def locked_delete(r):
+        from dulwich.refs import locked_ref
+        with locked_ref(r.refs, MAIN) as lr:
+            lr.delete()
+
+    def thin_pack(r):
+        # a pack whose only delta refers to an object the receiver already has: add_thin_pack appends the base and rewrites the trailer
+        import io
+        base = B0.data
+        target = base + b"appended line\n"
+        tb = Blob.from_string(target)
+        data, _ = P.raw_pack([{"kind": "ref", "base": bytes.fromhex(B0.id.decode()), "base_data": base, "data": target},
+                              {"kind": "full", "type": 3, "data": B1.data}, {"kind": "full", "type": 2, "data": T1.as_raw_string()},
+                              {"kind": "full", "type": 1, "data": C1.as_raw_string()}])
+        r.object_store.add_thin_pack(io.BytesIO(data).read, None)
+        r.refs.set_if_equals(MAIN, C0.id, C1.id)
+
     S = {
         "commit-loose": dict(setup=dict(nonbare=True), op=commit, allowed={MAIN: [0 + 2, 5], SIDE: [2]}, must=[0, 1, 2],
                              model="update 103:3;104:4;105:5 0 5"),
@@ -182,11 +207,15 @@ def scenarios():
         "delete-packed": dict(setup=dict(refs_layout="packed"), op=lambda r: r.refs.remove_if_equals(MAIN, C0.id), allowed={MAIN: [2, None], SIDE: [2]}, must=[0, 1, 2], model="delete 0"),
         "delete-stale-packed": dict(setup=dict(refs_layout="stale-packed"), op=lambda r: r.refs.remove_if_equals(MAIN, C0.id), allowed={MAIN: [2, None]}, must=[0, 1, 2, 3, 4, 5],
                                     model="delete 0"),
+        "locked-ref-delete-stale-packed": dict(setup=dict(refs_layout="stale-packed"), op=locked_delete, allowed={MAIN: [2, None]}, must=[0, 1, 2, 3, 4, 5], model="delete 0"),
         "pack-refs": dict(setup=dict(), op=lambda r: r.refs.pack_refs(all=True), allowed={MAIN: [2], SIDE: [2]}, must=[0, 1, 2], model="packrefs 0=2,1=2"),
         "pack-refs-stale-packed": dict(setup=dict(refs_layout="stale-packed"), op=lambda r: r.refs.pack_refs(all=True), allowed={MAIN: [2]}, must=[0, 1, 2, 3, 4, 5], model="packrefs 0=2"),
         "pack-loose-objects": dict(setup=dict(), op=lambda r: r.object_store.pack_loose_objects(), allowed={MAIN: [2], SIDE: [2]}, must=[0, 1, 2], model="repack 201 0.1.2 100.101.102"),
         "repack": dict(setup=dict(packed_objs=True, extra_loose=(B1, T1, C1)), op=lambda r: r.object_store.repack(), allowed={MAIN: [2], SIDE: [2]}, must=[0, 1, 2, 3, 4, 5],
                        model="repack 202 0.1.2.3.4.5 200.103.104.105"),
+        "fsync-add-pack-then-ref": dict(setup=dict(fsync=True), op=add_pack, allowed={MAIN: [2, 5], SIDE: [2]}, must=[0, 1, 2], model=None, power=True),
+        "fsync-thin-pack-then-ref": dict(setup=dict(fsync=True), op=thin_pack, allowed={MAIN: [2, 5], SIDE: [2]}, must=[0, 1, 2], model=None, power=True),
+        "fsync-commit-loose": dict(setup=dict(nonbare=True, fsync=True), op=commit, allowed={MAIN: [2, 5], SIDE: [2]}, must=[0, 1, 2], model=None, power=True),
         "gc-prune": dict(setup=dict(extra_loose=(BU,)), op=lambda r: __import__("dulwich.gc", fromlist=["garbage_collect"]).garbage_collect(r, grace_period=None, prune=True),
                          allowed={MAIN: [2], SIDE: [2]}, must=[0, 1, 2], model=None),
         "gc-repack-packed-start": dict(setup=dict(packed_objs=True, extra_loose=(B1, T1, C1)),
@@ -209,10 +238,51 @@ def scenario(req):
         shutil.copytree(path, k0, symlinks=True)
         calls = []
 
+        initial = {}
+        for dp, dn, fn in os.walk(path):
+            for nm in fn:
+                fp = os.path.join(dp, nm)
+                with open(fp, "rb") as fh:
+                    initial[fp] = fh.read()
+        synced = {}
+        power = bool(sc.get("power"))
+
         def after(n, me, name):
             dst = os.path.join(snaps, str(n))
             # copying must not itself be scheduled or traced: the controller thread is not an actor
             shutil.copytree(path, dst, symlinks=True)
+            if not power:
+                return
+            ev = s.trace[-1]
+            if ev[1] == "os.fsync" and ev[3] == "ok":
+                try:
+                    fp = os.readlink("/proc/self/fd/%d" % ev[2][0])
+                    with open(fp, "rb") as fh:
+                        synced[fp] = fh.read()          # what is on disk now is what the fsync made durable
+                except OSError:
+                    pass
+            elif ev[1] in ("os.rename", "os.replace") and ev[3] == "ok" and len(ev[2]) == 2:
+                old_, new_ = (os.path.join(path, x) if not os.path.isabs(str(x)) else str(x) for x in ev[2])
+                if old_ in synced:
+                    synced[new_] = synced.pop(old_)
+                else:
+                    synced.pop(new_, None)
+            # the image a power loss leaves: whatever was written since the operation began and not fsynced is lost (empty file)
+            pdst = os.path.join(snaps, "p%d" % n)
+            shutil.copytree(dst, pdst, symlinks=True)
+            for dp, dn, fn in os.walk(pdst):
+                for nm in fn:
+                    img = os.path.join(dp, nm)
+                    live = os.path.join(path, os.path.relpath(img, pdst))
+                    with open(img, "rb") as fh:
+                        cur = fh.read()
+                    if initial.get(live) == cur:
+                        continue
+                    keep = synced.get(live)
+                    if keep != cur:
+                        os.chmod(img, 0o644)
+                        with open(img, "wb") as fh:
+                            fh.write(keep if keep is not None and cur.startswith(keep) else b"")
 
         # snapshots are taken from inside the actor thread right after each call returns; suspend interposition while copying
         def after_wrapped(n, me, name):
@@ -236,6 +306,13 @@ def scenario(req):
             rep["k"] = k
             rep["after"] = None if k == 0 else "%s %s %s" % (res["trace"][k - 1][1], res["trace"][k - 1][2], res["trace"][k - 1][3])
             out.append(rep)
+            pp = os.path.join(snaps, "p%d" % k)
+            if os.path.isdir(pp):
+                prep = inspect(pp, sc["allowed"], sc["must"])
+                prep["k"] = k
+                prep["after"] = rep["after"]
+                prep["power_loss"] = True
+                out.append(prep)
         return {"result": res["results"][0][0], "exc": res["results"][0][1] if res["results"][0][0] != "ok" else None, "points": n, "snaps": out,
                 "model": sc["model"], "initial": _initial(sc["setup"])}
     finally:
